@@ -496,7 +496,7 @@ fn litrange_body(hex: bool, neg: bool, nd: usize) {
             core::mem::forget(e);
         }
     }
-    kani::cover!(fits && val > 32767);
+    kani::cover!(fits && val != 0);
     kani::cover!(!fits);
 }
 macro_rules! litrange {
